@@ -360,6 +360,19 @@ func Apply(f *fox.Router, o Op, inTxn func(txn *fox.Txn)) (out Outcome, panicked
 	panic("bad mode")
 }
 
+// ApplyIn issues op (its Mode is ignored) inside the open write transaction txn of router f.
+func ApplyIn(f *fox.Router, txn *fox.Txn, o Op) (out Outcome, panicked string) {
+	defer func() {
+		if p := recover(); p != nil {
+			panicked = fmt.Sprint(p)
+		}
+	}()
+	if o.Kind == Truncate {
+		return classify(truncate(txn, o)), ""
+	}
+	return applyTo(f, txn, txn, o), ""
+}
+
 func truncate(txn *fox.Txn, o Op) error {
 	if o.Method == "" {
 		return txn.Truncate()
